@@ -1,23 +1,29 @@
 """C12 — indexing is bounds-checked and exact.
 
 Proof side: coq/Properties/Properties_C12.v (ctx.proofs()): models Index/ArrIndex.v, SliceRange.v,
-StrIndex.v, Shapes.v mirror back/object.c (object_arr_dim_mult/addr, object_arr_can_add/mult) and
-back/vmexec.c (vm_get_slice_range and the *_deref / slice_* / op_*_arr handlers).
+StrIndex.v, Shapes.v mirror back/object.c (object_arr_dim_mult/fits/addr, object_arr_can_add/mult) and
+back/vmexec.c (vm_get_slice_range, MK_ARRAY and the *_deref / slice_* / op_*_arr handlers).
 
 Tie (DESIGN.md §4.2, §5 C12):
  (1) direct calls — harness/index/indexdrive.c calls the tree's real object_arr_dim_mult,
-     object_arr_dim_addr, vm_get_slice_range, object_arr_can_add/mult (ASan/UBSan build) on a
+     object_arr_dim_fits, object_arr_dim_addr, vm_get_slice_range, object_arr_can_add/mult (ASan/UBSan build) on a
      case file; build/ocaml/index/run (extracted model) prints the same lines; every difference
      is a broken correspondence.  Exhaustive part: all shapes with <= 3 dimensions and extents
      0..4 with every index tuple in [-1, extent] (-1 passed as the unsigned 0xFFFFFFFF), every
      range quadruple in [-1,5]^4, every pair of shapes (<= 3 dims, extents 1..3, + nil) for
-     can_add/can_mult.  Random part: 32-bit corner values (0, 1, 2^16+-1, 2^31+-1, 2^32-1, INT_MIN,
-     INT_MAX, products that overflow 2^32).
+     can_add/can_mult.  Boundary part (every seed): ranges next to INT_MAX / INT_MIN, ascending and
+     descending, with indices and inner bounds of every magnitude (BOUND_RANGES, bound_indices):
+     range_from +- index leaves the int range there; since fix acecad0 the sums are formed in 64 bits.
+     Random part: 32-bit corner values (0, 1, 2^16+-1, 2^31+-1, 2^32-1, INT_MIN, INT_MAX, products
+     that overflow 2^32), seeded ranges next to the limits.
  (2) handler level — generated Never probe programs run by harness/common/nevrun.c (ASan/UBSan):
      array deref with every index tuple in [-1, extent] (+ INT_MIN/INT_MAX), range deref, slice
-     deref, slice of slice, range of range, write-through-slice/read-through-array, for-in over
+     deref, slice of slice, range of range (each also on ranges next to +-2^31: kind `int-overflow`
+     when range_from +- index does not fit an int), write-through-slice/read-through-array, for-in over
      ranges and slices, string index, string slice, element-wise add/sub and matrix product with
-     conforming and non-conforming shapes.  The outcome of every call (value | which exception |
+     conforming and non-conforming shapes, MK_ARRAY and the matrix product with extents whose product
+     does not fit unsigned int (kind `extent-product-overflow`, finding fixed by 1f9996a: wrong_array_size
+     is demanded by the model, any orderly outcome by the property).  The outcome of every call (value | which exception |
      sanitizer report) is compared with the model's prediction (H-lines of the model runner).
  (3) checks/parts/exctab.py: exception-table search (for C03 (a)), same driver.
 
@@ -99,6 +105,56 @@ def rpositions(a, b):
     return [rnth(a, b, k) for k in range(rlen(a, b))]
 
 
+def wraps(a, b, x):
+    """does range_from +- x, as vm_get_slice_range forms it for [a..b], leave the int range?  (before fix
+    acecad0 the sum was an int and wrapped: finding range_deref:int-overflow)"""
+    v = a + x if a < b else a - x
+    return x >= 0 and not INT_MIN <= v <= INT_MAX
+
+
+# ranges next to the limits of int; the first two are the witnesses of the former finding
+BOUND_RANGES = [
+    (2147483640, 2147483647), (-2147483640, -2147483647),
+    (INT_MAX - 1, INT_MAX), (0, INT_MAX), (-5, INT_MAX), (INT_MIN, INT_MAX), (INT_MIN, INT_MIN + 3),     # ascending
+    (INT_MIN + 7, INT_MIN), (INT_MIN + 5, INT_MIN), (INT_MIN, INT_MIN), (INT_MAX, INT_MAX),               # descending
+    (INT_MAX, INT_MAX - 3), (0, INT_MIN), (-1, INT_MIN), (INT_MAX, INT_MIN)]
+BOUND_INNER = [(3, 20), (20, 3), (0, 7), (7, 0), (7, 7), (0, INT_MAX), (INT_MAX, 0), (INT_MAX, INT_MAX),
+               (INT_MAX - 1, INT_MAX), (5, 1 << 30), (-1, 3), (3, INT_MIN)]
+
+
+def is_int(v):
+    return INT_MIN <= v <= INT_MAX
+
+
+def bound_indices(a, b):
+    """indices of every magnitude for [a..b]: around 0, around the length, far beyond, the int limits"""
+    ln = rlen(a, b)
+    out = []
+    for v in (-1, 0, 1, ln - 2, ln - 1, ln, ln + 1, 20, 65536, 1 << 30, INT_MAX - 1, INT_MAX, INT_MIN):
+        if is_int(v) and v not in out:
+            out.append(v)
+    return out
+
+
+def seeded_bound_ranges(rng, n):
+    """n seeded (range, index) pairs next to +-2^31, both directions"""
+    out = []
+    for _ in range(n):
+        ln = rng.randrange(0, 40)
+        if rng.random() < 0.5:
+            hi = INT_MAX - rng.randrange(0, 40)
+            a, b = hi - ln, hi
+        else:
+            lo = INT_MIN + rng.randrange(0, 40)
+            a, b = lo, lo + ln
+        if rng.random() < 0.5:
+            a, b = b, a
+        i = rng.choice([rng.randrange(0, ln + 1), ln + 1, ln + 1 + rng.randrange(0, 100), INT_MAX - rng.randrange(0, 100),
+                        rng.randrange(0, INT_MAX + 1), (1 << 31) - ln - 1 + rng.randrange(0, 3)])
+        out.append((a, b, min(max(i, 0), INT_MAX)))
+    return out
+
+
 def nev_int(v):
     return str(v) if v >= 0 else "(0 - %d)" % (-v) if v > INT_MIN else "(0 - 2147483647 - 1)"
 
@@ -128,6 +184,7 @@ def gen_direct(ctx):
     for dims in (1, 2, 3):
         for exts in itertools.product(range(0, 5), repeat=dims):
             lines.append("M " + " ".join(map(str, exts)))
+            lines.append("F " + " ".join(map(str, exts)))
             lines.append("C " + " ".join(map(str, exts)))
             for idx in itertools.product(*[range(-1, n + 1) for n in exts]):
                 lines.append("A %s | %s" % (" ".join(map(str, exts)),
@@ -141,9 +198,18 @@ def gen_direct(ctx):
             lines.append("CA %s | %s" % (s1, s2))
             lines.append("CM %s | %s" % (s1, s2))
     nex = len(lines)
+    # ranges next to +-2^31 (every seed): single indices (RANGE_DEREF / SLICE_DEREF call shape) and two bounds
+    for (a, b) in BOUND_RANGES:
+        for i in bound_indices(a, b):
+            lines.append("R %d %d %d %d" % (a, b, i, i))
+        for (c, d) in BOUND_INNER:
+            lines.append("R %d %d %d %d" % (a, b, c, d))
     # random 32-bit corners
     rng = random.Random((ctx.seed << 4) ^ 0xC12)
     n = 20000 if ctx.tier == "quick" else 300000
+    for (a, b, i) in seeded_bound_ranges(rng, n // 20):
+        j = i if rng.random() < 0.6 else rng.choice([0, 1, rlen(a, b) - 1, min(i + 1, INT_MAX), INT_MAX])
+        lines.append("R %d %d %d %d" % (a, b, i, j))
 
     def ru():
         r = rng.random()
@@ -164,10 +230,13 @@ def gen_direct(ctx):
     overflow = [(65536, 65536), (65536, 65537), (65537, 65537), (3, 1431655766), (2, 2147483648),
                 (4294967295, 4294967295), (2, 3, 715827883), (1 << 16, 1 << 8, 1 << 8), (1 << 11, 1 << 11, 1 << 11),
                 (46341, 46341, 2)]
+    overflow += [(65535, 65537), (65536, 65535), (65535, 65535), (4294967295,), (4294967295, 1, 1), (2147483647, 3),
+                 (2147483647, 2147483647, 2147483647), (65536, 65536, 0), (0, 65536, 65536), (46341, 92682)]
     for exts in overflow:
         lines.append("M " + " ".join(map(str, exts)))
+        lines.append("F " + " ".join(map(str, exts)))
         for _ in range(6):
-            idx = [rng.choice([0, 1, n - 1, n, rng.randrange(0, n)]) for n in exts]
+            idx = [rng.choice([0, 1, max(n - 1, 0), n, rng.randrange(0, max(n, 1))]) for n in exts]
             lines.append("A %s | %s" % (" ".join(map(str, exts)), " ".join(map(str, idx))))
     # shape copies (object_arr_dim_copy / object_arr_copy): up to 5 dimensions
     for _ in range(n // 10):
@@ -184,7 +253,12 @@ def gen_direct(ctx):
         k = rng.random()
         if k < 0.15:
             d = rng.randint(0, 6)
-            lines.append(("M " + " ".join(str(ru()) for _ in range(d))).strip())
+            lines.append(("%s " % rng.choice("MF") + " ".join(str(ru()) for _ in range(d))).strip())
+        elif k < 0.2:
+            # products next to 2^32 from both sides
+            n1 = rng.choice([rng.randrange(1, 1 << 17), rng.randrange(1, 1 << 31), 65536, 3, 2])
+            n2 = (U32 + n1 - 1) // n1 + rng.choice([-2, -1, 0, 0, 1])
+            lines.append("F %d %d" % ((n1, max(n2, 1)) if rng.random() < 0.5 else (max(n2, 1), n1)))
         elif k < 0.45:
             d = rng.randint(1, 6)
             exts = [ru() for _ in range(d)]
@@ -243,6 +317,15 @@ def direct_oracle(line, out):
                 return ("dim_addr:in-range", "object_arr_dim_addr(extents %s, index %s) -> addr %d oob %d; "
                         "row-major element is %d" % (exts, idx, addr, oob, want), "%d -1" % want)
             return None
+        if cmd == "F":
+            exts = [int(x) for x in t[1:]]
+            if o[1] == "?" or not all(n > 0 for n in exts):
+                return None               # no such function in the tree: the broken correspondence says so
+            want = 1 if prod(exts) < U32 else 0
+            if int(o[1]) != want:
+                return ("dim_fits:wrong-answer", "object_arr_dim_fits(%s) = %s, the product %d %s unsigned int" % (
+                    exts, o[1], prod(exts), "fits" if want else "does not fit"), str(want))
+            return None
         if cmd in ("C", "CD", "CO"):
             nums = [int(x) for x in t[1:]]
             got = [int(x) for x in o[1:]]
@@ -270,14 +353,16 @@ def direct_oracle(line, out):
                     return ("slice_range:negative-inner-bound", "vm_get_slice_range([%d..%d][%d..%d]) does not report "
                             "oob for a negative inner bound (res %s..%s)" % (a, b, c, d, o[1], o[2]), "oob")
                 return None
-            sums = [a + c, a + d, a - c, a - d]
-            if any(s < INT_MIN or s > INT_MAX for s in sums):
-                return None               # covered at VM level (range_deref:int-overflow)
             rf, rt, oob = int(o[1]), int(o[2]), int(o[3])
             ln = rlen(a, b)
             if c >= ln or d >= ln:
                 if oob != 1:
-                    return ("slice_range:bound-outside-outer-range", "vm_get_slice_range([%d..%d][%d..%d]) does not "
+                    # range_from +- bound does not fit an int: the finding fixed by acecad0 (recorded at VM
+                    # level under range_deref:int-overflow, see the bound_* probe programs)
+                    key = "slice_range:bound-outside-outer-range"
+                    if wraps(a, b, c) or wraps(a, b, d):
+                        key = "slice_range:int-overflow"
+                    return (key, "vm_get_slice_range([%d..%d][%d..%d]) does not "
                             "report oob (res %d..%d); the outer range has %d positions" % (a, b, c, d, rf, rt, ln), "oob")
                 return None
             want = (rnth(a, b, c), rnth(a, b, d))
@@ -334,7 +419,7 @@ def run_direct(ctx, drv):
         if v is not None:
             ctx.violation(v[0], v[1], {"case": ln, "expected": v[2], "observed": c,
                                        "replay": "echo '%s' > f; indexdrive f" % ln})
-        if ln[0] in "ARC":
+        if ln[0] in "ARCF":
             nontriv.add(ln)
     if first is not None:
         ctx.correspondence_broken("direct-calls(dim_mult/dim_addr/get_slice_range/can_add/can_mult)", first)
@@ -344,6 +429,10 @@ def run_direct(ctx, drv):
         "cases": len(lines), "exhaustive_cases": nex,
         "exhaustive_domain": "dims<=3, extents 0..4, index tuples in [-1,extent]^dims; range quadruples [-1,5]^4; "
                              "shape pairs (<=3 dims, extents 1..3, nil) for can_add/can_mult",
+        "boundary_cases": sum(len(bound_indices(a, b)) + len(BOUND_INNER) for a, b in BOUND_RANGES),
+        "boundary_domain": "15 ranges next to INT_MAX / INT_MIN (ascending, descending, single position, the two full "
+                           "ranges) x indices around 0, around the length, 2^16, 2^30, INT_MAX-1, INT_MAX, INT_MIN and "
+                           "12 inner ranges of every magnitude",
         "random_cases": len(lines) - nex}
     ctx.sample({"direct": lines[nex // 3], "code": lc[nex // 3] if nex // 3 < len(lc) else None})
 
@@ -364,8 +453,8 @@ class Call(object):
 
 
 class Program(object):
-    def __init__(self, pid, decls):
-        self.pid, self.decls, self.calls = pid, decls, []
+    def __init__(self, pid, decls, mem=None):
+        self.pid, self.decls, self.calls, self.mem = pid, decls, [], mem
 
     def add(self, call):
         self.calls.append(call)
@@ -854,22 +943,170 @@ def gen_programs(ctx):
                        "print(ba_range(%s))" % args([p0, q0, p1, q1, i]), [str(rnth(p0, q0, i))] if ok else [E_OOB]))
     progs.append(p)
 
-    # ---- what the mirrored code does not guarantee (Properties_C12.v *_refuted witnesses) ----------
-    p = Program("overflow_product", "func probe(n : int, m : int, i : int, j : int) -> int\n{\n"
-                "    let a = {[ n, m ]} : int;\n    a[i, j]\n}\n" + CATCH)
-    p.add(Call("array_deref", "extent-product-overflow", "({[65536, 65536]} : int)[1, 1]",
-               "print(probe(65536, 65536, 1, 1))", ["<no crash: value 0, index_out_of_bounds or an out-of-memory exit>"],
-               "HA 65536 65536 | 1 1", lambda ans: ("foreign",) if ans == "ok 0" else None))
+    # ---- what the mirrored code does not guarantee (Properties_C12.v dim_mult_overflow_refuted) -----
+    # MK_ARRAY with extents whose product does not fit unsigned int (finding array_deref:extent-product-overflow,
+    # fixed by 1f9996a: wrong_array_size).  Before the fix {[65536, 65536]} got 0 cells and no value[] (the access
+    # crashed), {[3, 1431655766]} got 2 cells and all multipliers 0 (every index reached cell 0: probew read the 7
+    # written at [0, 0] back at [2, 5]).  Property: any orderly outcome except a wrong element; model: wrong_array_size.
+    ovf_ok = [["0"], [E_OOB], [E_OTHER]]
+    p = Program("overflow_product",
+                "func probe(n : int, m : int, i : int, j : int) -> int\n{\n    let a = {[ n, m ]} : int;\n    a[i, j]\n}\n" + CATCH +
+                "func probew(n : int, m : int, i : int, j : int) -> int\n{\n    var a = {[ n, m ]} : int;\n"
+                "    a[0, 0] = 7;\n    a[i, j]\n}\n" + CATCH +
+                "func probe3(n : int, m : int, k : int, i : int, j : int, l : int) -> int\n{\n"
+                "    var a = {[ n, m, k ]} : int;\n    a[0, 0, 0] = 7;\n    a[i, j, l]\n}\n" + CATCH)
+
+    def mk_map(first_is_7):
+        def f(ans):
+            t = ans.split()
+            if t[0] == "ok":
+                return ["7" if (first_is_7 and int(t[1]) == 0) else "0"]
+            return {"oob": [E_OOB], "size": [E_SIZE]}.get(t[0])
+        return f
+
+    def mk_call(fn, exts, idx):
+        fits = all(n > 0 for n in exts) and prod(exts) < U32
+        if not all(n > 0 for n in exts):
+            exp, kind = [E_OOB], "non-positive-extent"
+        elif not fits:
+            exp, kind = [E_SIZE], "extent-product-overflow"
+        elif in_range(exts, idx):
+            exp, kind = ["7" if (fn != "probe" and not any(idx)) else "0"], "created-in-range"
+        else:
+            exp, kind = [E_OOB], "created-" + kind_of_index(exts, idx)
+        p.add(Call("array_deref", kind, "({[%s]} : int)[%s]%s" % (", ".join(map(str, exts)), ", ".join(map(str, idx)),
+                                                               "" if fn == "probe" else " after a[0,..] = 7"),
+                   "print(%s(%s))" % (fn, args(list(exts) + list(idx))), exp,
+                   "HMA %s | %s" % (" ".join(map(str, exts)), " ".join(map(str, idx))), mk_map(fn != "probe"),
+                   also_ok=ovf_ok if kind == "extent-product-overflow" else ()))
+    mk_call("probe", (65536, 65536), (1, 1))                       # the recorded witness first
+    for exts, idx in [((65537, 65537), (0, 0)), ((3, 1431655766), (2, 5)), ((1431655766, 3), (5, 2)), ((2147483647, 3), (1, 1)),
+                      ((2147483647, 2147483647), (1, 1)), ((46341, 92682), (46340, 1)), ((65536, 65537), (65535, 65536)),
+                      ((3, 4), (2, 3)), ((3, 4), (0, 0)), ((3, 4), (3, 0)), ((3, 4), (0, -1)), ((0, 4), (0, 0)), ((-1, 4), (0, 0)),
+                      ((4, 0), (0, 0)), ((1, 1), (0, 0))]:
+        mk_call("probew", exts, idx)
+    for exts, idx in [((46341, 46341, 2), (1, 1, 1)), ((2048, 2048, 1024), (1, 1, 1)), ((65536, 256, 256), (0, 0, 1)),
+                      ((2147483647, 2147483647, 2147483647), (0, 1, 0)), ((2, 3, 715827883), (1, 2, 3)),
+                      ((2, 3, 4), (1, 2, 3)), ((2, 3, 4), (0, 0, 0)), ((2, 3, 4), (1, 3, 0)), ((2, 0, 4), (0, 0, 0))]:
+        mk_call("probe3", exts, idx)
+    for _ in range(60 if thorough else 12):                          # seeded: products just above 2^32
+        n1 = rng.choice([rng.randrange(2, 1 << 17), rng.randrange(2, 1 << 31), 65536])
+        n2 = (U32 + n1 - 1) // n1 + rng.randrange(0, 3)
+        if not is_int(n2):
+            continue
+        exts = (n1, n2) if rng.random() < 0.5 else (n2, n1)
+        mk_call("probew", exts, (exts[0] - 1, exts[1] - 1))
     progs.append(p)
-    p = Program("overflow_range", "func probe(a : int, b : int, i : int) -> int\n{\n    [a .. b][i][0]\n}\n" + CATCH)
-    p.add(Call("range_deref", "int-overflow", "[2147483640..2147483647][20]", "print(probe(2147483640, 2147483647, 20))",
-               [E_OOB], "HR 2147483640 2147483647 | 20",
-               lambda ans: [ans.split()[1]] if ans.startswith("ok") else [E_OOB]))
-    p.add(Call("range_deref", "int-overflow", "[-2147483640..-2147483647][20]",
-               "print(probe(0 - 2147483640, 0 - 2147483647, 20))",
-               [E_OOB], "HR -2147483640 -2147483647 | 20",
-               lambda ans: [ans.split()[1]] if ans.startswith("ok") else [E_OOB]))
+    # the matrix product creates its result the same way: [n x 1] * [1 x n] has n * n cells
+    p = Program("overflow_matmul", "func mm(n : int, i : int, j : int) -> int\n{\n    let a = {[ n, 1 ]} : int;\n"
+                "    let b = {[ 1, n ]} : int;\n    let c = a * b;\n    c[i, j]\n}\n" + CATCH, mem=1500000)
+    for n, i, j in [(65536, 1, 1), (3, 1, 1), (65537, 0, 0), (4, 3, 3), (4, 4, 0), (92682, 5, 5)]:
+        big = n * n >= U32
+        exp = [E_SIZE] if big else (["0"] if in_range((n, n), (i, j)) else [E_OOB])
+        p.add(Call("arr_matmul", "extent-product-overflow" if big else "created-" + kind_of_index((n, n), (i, j)),
+                   "({[%d, 1]} * {[1, %d]})[%d, %d]" % (n, n, i, j), "print(mm(%s))" % args([n, i, j]), exp,
+                   "HQ %d 1 | 1 %d" % (n, n),
+                   lambda ans, exp=exp: [E_SIZE] if ans.split()[0] == "size" else (exp if ans.split()[0] == "ok" else None),
+                   also_ok=ovf_ok if big else ()))
     progs.append(p)
+    # ---- ranges next to +-2^31: the sums range_from +- index do not fit an int (finding
+    #      range_deref:int-overflow, fixed by acecad0; Properties_C12.v *_overflow_regression).
+    #      Generated on every seed; the seeded part adds ranges at random distances from the limits.
+    seeded = seeded_bound_ranges(rng, 200 if thorough else 40)
+
+    def index_kind(a, b, i, ok, outside=False):
+        if ok:
+            return "in-range"
+        if outside:
+            return "position-outside-array"
+        if wraps(a, b, i):
+            return "int-overflow"
+        return kind_of_index([rlen(a, b)], [i])
+    val_map = lambda ans: [ans.split()[1]] if ans.startswith("ok") else [E_OOB]
+
+    # RANGE_DEREF
+    p = Program("bound_range", "func probe(a : int, b : int, i : int) -> int\n{\n    [a .. b][i][0]\n}\n" + CATCH)
+    # the recorded witnesses of the finding first, then every magnitude
+    cases = [(2147483640, 2147483647, 20), (-2147483640, -2147483647, 20)]
+    cases += [(a, b, i) for (a, b) in BOUND_RANGES for i in bound_indices(a, b) if (a, b, i) not in cases] + seeded
+    for (a, b, i) in cases:
+        ok = 0 <= i < rlen(a, b)
+        p.add(Call("range_deref", index_kind(a, b, i, ok), "[%d..%d][%d]" % (a, b, i),
+                   "print(probe(%s))" % args([a, b, i]), [str(rnth(a, b, i))] if ok else [E_OOB],
+                   "HR %d %d | %d" % (a, b, i), val_map))
+    progs.append(p)
+    # RANGE_DEREF, two dimensions: the overflowing dimension is the second one
+    p = Program("bound_range2", "func probe(a : int, b : int, c : int, d : int, i : int, j : int) -> int\n{\n"
+                "    let v = [a .. b, c .. d][i, j];\n    v[0] - v[1]\n}\n" + CATCH)
+    for (c, d) in BOUND_RANGES[:4] + BOUND_RANGES[7:11]:
+        for j in (0, rlen(c, d) - 1, rlen(c, d), 20, INT_MAX):
+            if not is_int(j):
+                continue
+            for (a, b, i) in ((1, 5, 2), (5, 1, 9)):
+                ok = 0 <= i < rlen(a, b) and 0 <= j < rlen(c, d)
+                kind = "in-range" if ok else ("int-overflow" if i < rlen(a, b) and wraps(c, d, j) else "index-ge-extent")
+                diff = rnth(a, b, i) - rnth(c, d, j)
+                if ok and not is_int(diff):
+                    continue
+                p.add(Call("range_deref", kind, "[%d..%d, %d..%d][%d, %d]" % (a, b, c, d, i, j),
+                           "print(probe(%s))" % args([a, b, c, d, i, j]), [str(diff)] if ok else [E_OOB],
+                           "HR %d %d %d %d | %d %d" % (a, b, c, d, i, j),
+                           lambda ans: [str(int(ans.split()[1]) - int(ans.split()[2]))] if ans.startswith("ok") else [E_OOB]))
+    progs.append(p)
+
+    # SLICE_DEREF: SLICE_ARRAY pairs the array with any range, the positions are checked at the access.
+    # a[INT_MIN..INT_MIN][INT_MAX] reached a[1] and a[INT_MIN+5..INT_MIN][INT_MAX] reached a[6] before the fix.
+    p = Program("bound_slice", "func probe(a0 : int, b0 : int, i : int) -> int\n{\n    let a = %s;\n"
+                "    let s = a[a0 .. b0];\n    s[i]\n}\n%s" % (literal((N,)), CATCH))
+    sl_bound = BOUND_RANGES + [(0, 7), (7, 0), (3, INT_MAX), (7, INT_MIN), (INT_MIN + 1, INT_MIN), (2, 2)]
+    cases = [(a, b, i) for (a, b) in sl_bound for i in bound_indices(a, b) + [2, 5, 8]] + seeded
+    for (a, b, i) in cases:
+        inr = 0 <= i < rlen(a, b)
+        ok = inr and 0 <= rnth(a, b, i) < N
+        p.add(Call("slice_deref", index_kind(a, b, i, ok, outside=inr), "a[8][%d..%d][%d]" % (a, b, i),
+                   "print(probe(%s))" % args([a, b, i]), [str(1000 + rnth(a, b, i))] if ok else [E_OOB],
+                   "HS %d | %d %d | %d" % (N, a, b, i), elem_map()))
+    progs.append(p)
+
+    # SLICE_RANGE and SLICE_SLICE: [a..b][c..d][k]
+    pss = Program("bound_slice_slice", "func probe(a0 : int, b0 : int, c0 : int, d0 : int, k : int) -> int\n{\n"
+                  "    let a = %s;\n    let s = a[a0 .. b0][c0 .. d0];\n    s[k]\n}\n%s" % (literal((N,)), CATCH))
+    prr = Program("bound_range_range", "func probe(a0 : int, b0 : int, c0 : int, d0 : int, k : int) -> int\n{\n"
+                  "    [a0 .. b0][c0 .. d0][k][0]\n}\n" + CATCH)
+    quads = [(a, b, c, d) for (a, b) in BOUND_RANGES for (c, d) in BOUND_INNER]
+    quads += [(a, b, c, d) for (a, b) in [(0, 7), (7, 0), (3, INT_MAX), (7, INT_MIN), (INT_MIN + 1, INT_MIN)]
+              for (c, d) in BOUND_INNER]
+    for (a, b, i) in seeded:
+        quads.append((a, b, i, rng.choice([i, 0, max(0, rlen(a, b) - 1), min(i + 1, INT_MAX), INT_MAX])))
+    for (a, b, c, d) in quads:
+        comp_ok = 0 <= c < rlen(a, b) and 0 <= d < rlen(a, b)
+        if comp_ok:
+            ks = [k for k in (-1, 0, 1, rlen(c, d) - 1, rlen(c, d), INT_MAX, INT_MIN) if is_int(k)]
+            ks = [k for n, k in enumerate(ks) if k not in ks[:n]]
+        else:
+            ks = [0]
+        for k in ks:
+            kin = comp_ok and 0 <= k < rlen(c, d)
+            pos = rnth(a, b, rnth(c, d, k)) if kin else None
+            if c < 0 or d < 0:
+                kind = "negative-inner-bound"
+            elif not comp_ok:
+                kind = "int-overflow" if (wraps(a, b, c) or wraps(a, b, d)) else "inner-bound-outside-outer-range"
+            elif kin:
+                kind = "in-range"
+            else:
+                rf, rt = rnth(a, b, c), rnth(a, b, d)
+                kind = "int-overflow" if wraps(rf, rt, k) else kind_of_index([rlen(c, d)], [k])
+            inarr = kin and 0 <= pos < N
+            pss.add(Call("slice_slice", "position-outside-array" if (kin and not inarr) else kind,
+                         "a[8][%d..%d][%d..%d][%d]" % (a, b, c, d, k), "print(probe(%s))" % args([a, b, c, d, k]),
+                         [str(1000 + pos)] if inarr else [E_OOB],
+                         "HSS %d | %d %d | %d %d | %d" % (N, a, b, c, d, k), elem_map()))
+            prr.add(Call("slice_range", kind, "[%d..%d][%d..%d][%d]" % (a, b, c, d, k),
+                         "print(probe(%s))" % args([a, b, c, d, k]), [str(pos)] if kin else [E_OOB],
+                         "HRR %d %d | %d %d | %d" % (a, b, c, d, k), val_map))
+    progs.append(pss)
+    progs.append(prr)
     return progs
 
 
@@ -963,7 +1200,7 @@ def run_probes(ctx, nevrun):
     else:
         mans = dict(zip(cmds, [ln.split(" ", 1)[1] if " " in ln else ln for ln in mout.split("\n")]))
     # batches
-    allprogs = [(p.pid, p.source()) for p in progs]
+    allprogs = [(p.pid + (" mem=%d" % p.mem if p.mem else ""), p.source()) for p in progs]
     allprogs += [("cc_" + n, s) for n, s, _ in COMPILE_PROBES]
     allprogs += [("corpus_%d" % k, c["src"]) for k, c in enumerate(corpus)]
     nb = min(NPROC, len(allprogs))
@@ -1042,11 +1279,12 @@ def run_probes(ctx, nevrun):
                       "run": "put '@@@ x' + program into a file; <asan build>/nevrun --batch file"}
             # -- the property --------------------------------------------------------------------
             if c.kind == "extent-product-overflow":
-                # any orderly outcome is accepted: a value, an exception, the VM's "out of memory" exit(1)
-                orderly = (not crashed) or (san is None and "out of memory" in "\n".join(lines))
-                if not orderly:
+                # any orderly outcome is accepted: wrong_array_size (what the tree does since 1f9996a), a fresh
+                # element, another exception, the VM's "out of memory" exit(1) -- not a crash, not a foreign element
+                oom = crashed and san is None and "out of memory" in "\n".join(lines)
+                if not (oom or obs_lines == c.expect or obs_lines in c.also_ok):
                     ctx.violation("%s:%s" % (c.cls, c.kind),
-                                  "%s: %s instead of an orderly outcome" % (c.descr, obs_txt), replay)
+                                  "%s: %s instead of wrong_array_size (or another orderly outcome)" % (c.descr, obs_txt), replay)
             elif obs_lines != c.expect and obs_lines not in c.also_ok:
                 ctx.violation("%s:%s" % (c.cls, c.kind),
                               "%s gives %s, the property demands %s" % (c.descr, obs_txt, show_obs(c.expect)), replay)
